@@ -577,3 +577,43 @@ def unguarded_table_lookups(prog, pred):
             if not guarded:
                 out.append((f, x, nm, ktxt))
     return nfun, out
+
+
+def signed_formats(prog, pred):
+    """struct format strings with a signed code in the selected functions -> (count, [(FuncInfo, node, fmt, codes)])."""
+    nfmt = 0
+    out = []
+    for fn in prog.all_functions():
+        if not pred(fn):
+            continue
+        for n in ast.walk(fn.node):
+            if isinstance(n, ast.Call) and src_of(n.func) in ('struct.pack', 'struct.unpack', 'struct.unpack_from',
+                                                             'pack', 'unpack') and n.args:
+                fmt = n.args[0]
+                txt = None
+                if isinstance(fmt, ast.Constant) and isinstance(fmt.value, str):
+                    txt = fmt.value
+                elif isinstance(fmt, ast.BinOp) and isinstance(fmt.left, ast.Constant) and \
+                        isinstance(fmt.left.value, str):
+                    txt = fmt.left.value.replace('%d', '')
+                if txt is None:
+                    continue
+                nfmt += 1
+                signed = [c for c in txt if c in 'bhilq']
+                if signed:
+                    out.append((fn, n, txt, ''.join(signed)))
+    return nfmt, out
+
+
+def report_signed_formats(prog, rep, rule, pred, floor):
+    nfmt, sites = signed_formats(prog, pred)
+    if not [c for c in '!Bq' if c in 'bhilq']:
+        raise AnalysisError('signed-format scanner broken')
+    for fn, n, txt, codes in sites:
+        key = 'signed:%s:%s' % (fn.qualname, txt)
+        rep.bad(rule, key, file=fn.file, line=n.lineno, func=fn.qualname,
+                found='format %r uses the signed code(s) %s: a wire field with its top bit set decodes as a negative '
+                      'number (or cannot be packed)' % (txt, codes), expected='unsigned wire fields', key=key)
+    if not sites:
+        rep.ok(rule, 'formats-unsigned', found='%d format strings, none signed' % nfmt)
+    rep.floor(rule, 'struct format strings', nfmt, floor)
